@@ -83,6 +83,8 @@ def vx_extract(unit, rendering):
         else:
             r["spec"] = False
             r.pop("ret_name", None)
+            if "any_expr_plain" in it:
+                r["any_expr"] = it["any_expr_plain"]
             r["rules"] = list(it.get("rules", [])) + list(it.get("rules_plain", []))
             rc = dict(it.get("rename_calls", {}))
             rc.update(it.get("rename_calls_plain", {}))
